@@ -43,7 +43,7 @@ def space(tier):
         g3 = G.Grammar(accs=("acc1",), calls=("CALL", "CALLN"), ifp=True, rich=True, max_depth=2)
         seen |= set(p2)
         extra = [p for p in g3.programs(4) if G.has_launch(p) and p not in seen]
-    return p1 + p2 + extra
+    return p1 + p2 + extra + G.skeletons("acc1")
 
 
 def evaluate(prog, only_vector=None) -> CaseResult:
